@@ -1,8 +1,572 @@
-import PysphVerif.Model.Needs
-/-! # C20 — property theorems (in progress) -/
+import PysphVerif.Lemmas.Needs
+/-!
+# C20 — incomplete problems are rejected at set-up, never compiled and run
+
+Property theorems only (helper lemmas live in `Lemmas/Needs.lean`).  They are
+about `Model/Needs.lean`, which transcribes the set-up time checks
+(`check_equation_array_properties` as repaired by the `fix:` commit,
+`AccelerationEval.__init__`, `_check_integrator_steppers`,
+`_check_arrays_for_properties`) *and* the pointer set-up of the generated code
+(`get_dest_array_setup`, `get_src_array_setup`, `get_array_setup`), and is tied
+to the code by differential execution on every run.
+
+All statements hold for every precomputed-symbol table, every list of particle
+arrays, every program (any number of groups, sub-groups, empty groups, repeated
+equations), every set of steppers.  What an equation *needs* is specified
+independently of the code's closure loop, by the inductive reachability
+relation `Reach` (`NeedsDst`, `NeedsSrc` in `Lemmas/Needs.lean`).
+-/
+set_option linter.unusedSectionVars false
 namespace PysphVerif.C20
 open PysphVerif.Needs
 
-theorem placeholder_ok : firstError (fun _ => Verdict.ok) [] = Verdict.ok := rfl
+/-! ## what "complete" means -/
+
+/-- The problem is complete for equation `e`: destination and sources exist,
+and every property or constant `e` needs — explicitly through a `d_*`/`s_*`
+argument of one of its five methods, or implicitly through a precomputed
+symbol reachable from the arguments of its `loop` — is present in the
+destination, respectively in **every** source. -/
+def Complete (t : Table) (arrs : List PArr) (e : Eqn) : Prop :=
+  ∃ d, findArr arrs e.dest = some d ∧ (∀ n, NeedsDst t e n → strip n ∈ d.props) ∧
+    ∀ s ∈ e.sources.getD [], ∃ a, findArr arrs s = some a ∧
+      ∀ n, NeedsSrc t e n → strip n ∈ a.props
+
+/-- The set of precomputed symbols `Group._setup_precomputed` arrives at is
+exactly the set reachable from the loop arguments (the `while not done` loop
+neither stops early nor adds anything else). -/
+theorem precomputed_is_reachable_set (t : Table) (args : List Name) (s : Name) :
+    s ∈ closure t args ↔ Reach t args s :=
+  mem_closure_iff t args s
+
+/-! ## the equation check is complete -/
+
+/-- **check_complete.**  If building the evaluator raises nothing, every
+equation of the program (in whatever group or sub-group) is complete: nothing
+it needs explicitly or implicitly is missing from any array it is applied to,
+and every array name it uses exists. -/
+theorem check_complete (t : Table) (arrs : List PArr) (gs : List GroupT)
+    (h : checkProgram t arrs gs = Verdict.ok) :
+    ∀ e ∈ allEquations gs, Complete t arrs e := by
+  intro e he
+  have h1 := (firstError_ok _ _).mp h e he
+  obtain ⟨d, hd, hdn, hsn⟩ := checkEquationWith_ok h1
+  refine ⟨d, hd, ?_, ?_⟩
+  · intro n hn
+    exact hdn n ((mem_groupNeeds_dst t e n).mpr hn)
+  · intro s hs
+    obtain ⟨a, ha, han⟩ := hsn s hs
+    exact ⟨a, ha, fun n hn => han n ((mem_groupNeeds_src t e n).mpr hn)⟩
+
+/-- Contrapositive form, as the property is worded: an equation that lacks
+something makes the build raise. -/
+theorem incomplete_is_rejected (t : Table) (arrs : List PArr) (gs : List GroupT)
+    (e : Eqn) (he : e ∈ allEquations gs) (hinc : ¬ Complete t arrs e) :
+    checkProgram t arrs gs ≠ Verdict.ok :=
+  fun h => hinc (check_complete t arrs gs h e he)
+
+/-! ## no missing property reaches execution -/
+
+private theorem leaf_sub (gs : List GroupT) (leaf : List Eqn)
+    (hl : leaf ∈ gs.flatMap GroupT.leaves) (e : Eqn) (he : e ∈ leaf) : e ∈ allEquations gs := by
+  obtain ⟨g, hg, hlg⟩ := List.mem_flatMap.mp hl
+  refine List.mem_flatMap.mpr ⟨g, hg, ?_⟩
+  cases g with
+  | flat es =>
+    simp only [GroupT.leaves, List.mem_singleton] at hlg
+    subst hlg
+    exact he
+  | sub sgs =>
+    simp only [GroupT.leaves] at hlg
+    exact List.mem_flatMap.mpr ⟨leaf, hlg, he⟩
+
+/-- every pointer the generated `compute` takes for a (sub-)group belongs to a
+need of one of its equations -/
+theorem groupAccesses_are_needs (t : Table) (eqs : List Eqn) (a p : Name)
+    (h : (a, p) ∈ groupAccesses t eqs) :
+    (∃ e ∈ eqs, e.dest = a ∧ ∃ n, NeedsDst t e n ∧ p = strip n) ∨
+    (∃ e ∈ eqs, a ∈ e.sources.getD [] ∧ ∃ n, NeedsSrc t e n ∧ p = strip n) := by
+  unfold groupAccesses at h
+  obtain ⟨dest, _, h⟩ := List.mem_flatMap.mp h
+  rcases List.mem_append.mp h with h | h
+  · left
+    obtain ⟨n, hn, hpair⟩ := List.mem_map.mp h
+    simp only [Prod.mk.injEq] at hpair
+    obtain ⟨rfl, rfl⟩ := hpair
+    unfold destSetup at hn
+    rcases List.mem_append.mp hn with hn | hn
+    · obtain ⟨e, he, hne⟩ := (mem_groupDstNames t _ n).mp hn
+      simp only [noSource, ofDest, List.mem_filter, beq_iff_eq] at he
+      exact ⟨e, he.1.1, he.1.2, n, hne, rfl⟩
+    · obtain ⟨s, _, hn⟩ := List.mem_flatMap.mp hn
+      obtain ⟨e, he, hne⟩ := (mem_groupDstNames t _ n).mp hn
+      simp only [withSource, ofDest, List.mem_filter, beq_iff_eq] at he
+      exact ⟨e, he.1.1, he.1.2, n, hne, rfl⟩
+  · right
+    obtain ⟨s, _, h⟩ := List.mem_flatMap.mp h
+    obtain ⟨n, hn, hpair⟩ := List.mem_map.mp h
+    simp only [Prod.mk.injEq] at hpair
+    obtain ⟨rfl, rfl⟩ := hpair
+    unfold srcSetup at hn
+    obtain ⟨e, he, hne⟩ := (mem_groupSrcNames t _ n).mp hn
+    simp only [withSource, ofDest, List.mem_filter, beq_iff_eq, List.contains_eq_mem,
+      decide_eq_true_eq] at he
+    exact ⟨e, he.1.1, he.2, n, hne, rfl⟩
+
+/-- **generated_reads_exist.**  If building the evaluator raises nothing, every
+`x = dst.<p>.data` / `x = src.<p>.data` pointer the generated `compute` takes —
+for every group, sub-group, destination and source — is of a property or
+constant that array has: a missing property can neither crash the interpreter
+nor read unrelated memory. -/
+theorem generated_reads_exist (t : Table) (arrs : List PArr) (gs : List GroupT)
+    (h : checkProgram t arrs gs = Verdict.ok) :
+    ∀ ap ∈ programAccesses t gs, ∃ arr, findArr arrs ap.1 = some arr ∧ ap.2 ∈ arr.props := by
+  rintro ⟨a, p⟩ hap
+  obtain ⟨leaf, hleaf, hacc⟩ := List.mem_flatMap.mp hap
+  rcases groupAccesses_are_needs t leaf a p hacc with
+    ⟨e, he, hd, n, hn, rfl⟩ | ⟨e, he, hs, n, hn, rfl⟩
+  · obtain ⟨d, hfd, hdn, _⟩ := check_complete t arrs gs h e (leaf_sub gs leaf hleaf e he)
+    exact ⟨d, by rw [← hd]; exact hfd, hdn n hn⟩
+  · obtain ⟨_, _, _, hsn⟩ := check_complete t arrs gs h e (leaf_sub gs leaf hleaf e he)
+    obtain ⟨arr, hfa, han⟩ := hsn a hs
+    exact ⟨arr, hfa, han n hn⟩
+
+/-! ## the error names the equation and what is missing -/
+
+/-- **error_names_equation_and_missing.**  A raised error is the verdict of the
+first equation (in program order) that fails, it carries that equation's name,
+and
+* `invalid dest` names its destination, which is not a particle array;
+* `invalid source` names one of its sources, which is not a particle array;
+* `missing properties` lists, per array, exactly the needed names (explicit and
+  implicit) that array lacks, for the destination and every source, leaving
+  none out. -/
+theorem error_names_equation_and_missing (t : Table) (arrs : List PArr) (gs : List GroupT)
+    (v : Verdict) (h : checkProgram t arrs gs = v) (hv : v ≠ Verdict.ok) :
+    ∃ pre e post, allEquations gs = pre ++ e :: post ∧
+      (∀ x ∈ pre, Complete t arrs x) ∧
+      match v with
+      | Verdict.ok => False
+      | Verdict.invalidDest n d => n = e.name ∧ d = e.dest ∧ findArr arrs e.dest = none
+      | Verdict.invalidSource n s =>
+          n = e.name ∧ s ∈ e.sources.getD [] ∧ findArr arrs s = none
+      | Verdict.missing n errs =>
+          n = e.name ∧ errs ≠ [] ∧ ∃ d, findArr arrs e.dest = some d ∧
+          (∀ err ∈ errs,
+            (err.1 = e.dest ∧ ∀ x, x ∈ err.2 ↔ (∃ m, NeedsDst t e m ∧ x = strip m) ∧ x ∉ d.props) ∨
+            (∃ s ∈ e.sources.getD [], ∃ a, findArr arrs s = some a ∧ err.1 = s ∧
+              ∀ x, x ∈ err.2 ↔ (∃ m, NeedsSrc t e m ∧ x = strip m) ∧ x ∉ a.props)) ∧
+          (∀ m, NeedsDst t e m → strip m ∉ d.props →
+            ∃ err ∈ errs, err.1 = e.dest ∧ strip m ∈ err.2) ∧
+          (∀ s ∈ e.sources.getD [], ∀ a, findArr arrs s = some a →
+            ∀ m, NeedsSrc t e m → strip m ∉ a.props →
+              ∃ err ∈ errs, err.1 = s ∧ strip m ∈ err.2) := by
+  obtain ⟨pre, e, post, hsplit, hpre, hfe⟩ := firstError_err _ _ v h hv
+  refine ⟨pre, e, post, hsplit, ?_, ?_⟩
+  · intro x hx
+    obtain ⟨d, hd, hdn, hsn⟩ := checkEquationWith_ok (hpre x hx)
+    refine ⟨d, hd, fun n hn => hdn n ((mem_groupNeeds_dst t x n).mpr hn), ?_⟩
+    intro s hs
+    obtain ⟨a, ha, han⟩ := hsn s hs
+    exact ⟨a, ha, fun n hn => han n ((mem_groupNeeds_src t x n).mpr hn)⟩
+  · have hmapd : ∀ x, x ∈ (groupNeeds t e).2.map strip ↔ ∃ m, NeedsDst t e m ∧ x = strip m := by
+      intro x
+      simp only [List.mem_map, mem_groupNeeds_dst]
+      constructor
+      · rintro ⟨m, hm, rfl⟩; exact ⟨m, hm, rfl⟩
+      · rintro ⟨m, hm, rfl⟩; exact ⟨m, hm, rfl⟩
+    have hmaps : ∀ x, x ∈ (groupNeeds t e).1.map strip ↔ ∃ m, NeedsSrc t e m ∧ x = strip m := by
+      intro x
+      simp only [List.mem_map, mem_groupNeeds_src]
+      constructor
+      · rintro ⟨m, hm, rfl⟩; exact ⟨m, hm, rfl⟩
+      · rintro ⟨m, hm, rfl⟩; exact ⟨m, hm, rfl⟩
+    cases v with
+    | ok => exact hv rfl
+    | invalidDest n d => exact checkEquationWith_invalidDest hfe
+    | invalidSource n s =>
+      obtain ⟨h1, _, srcs, h2, h3, h4⟩ := checkEquationWith_invalidSource hfe
+      exact ⟨h1, by rw [h2]; exact h3, h4⟩
+    | missing n errs =>
+      obtain ⟨h1, h2, d, hd, _, h4, h5, h6⟩ := checkEquationWith_missing hfe
+      refine ⟨h1, h2, d, hd, ?_, ?_, ?_⟩
+      · intro err herr
+        rcases h4 err herr with ⟨c1, c2⟩ | ⟨s, hs, a, ha, c1, c2⟩
+        · left
+          exact ⟨c1, fun x => by rw [c2 x, hmapd x]⟩
+        · right
+          exact ⟨s, hs, a, ha, c1, fun x => by rw [c2 x, hmaps x]⟩
+      · intro m hm hmd
+        exact h5 (strip m) ((hmapd _).mpr ⟨m, hm, rfl⟩) hmd
+      · intro s hs a ha m hm hma
+        exact h6 s hs a ha (strip m) ((hmaps _).mpr ⟨m, hm, rfl⟩) hma
+
+/-! ## integrator steppers -/
+
+theorem mem_wrapperNames (sts : List Stepper) (m : Name) :
+    m ∈ wrapperNames sts ↔ ∃ st ∈ sts, m ∈ st.pyStages ∨ m ∈ st.methods.map (·.1) := by
+  unfold wrapperNames
+  rw [mem_sortNames]
+  simp only [List.mem_eraseDups, List.mem_flatMap, List.mem_append]
+
+private theorem checkStepperNames_ok (arrs : List PArr) (sts : List Stepper)
+    (h : checkStepperNames arrs sts = SVerdict.ok) :
+    ∀ st ∈ sts, ∃ pa, findArr arrs st.dest = some pa := by
+  induction sts with
+  | nil => intro st hst; cases hst
+  | cons s rest ih =>
+    simp only [checkStepperNames] at h
+    split at h
+    · cases h
+    · rename_i hs
+      intro st hst
+      rcases List.mem_cons.mp hst with rfl | hst
+      · cases hf : findArr arrs st.dest with
+        | none => rw [hf] at hs; simp at hs
+        | some pa => exact ⟨pa, rfl⟩
+      · exact ih h st hst
+
+private theorem checkStepperNames_err (arrs : List PArr) (sts : List Stepper) (v : SVerdict)
+    (h : checkStepperNames arrs sts = v) (hv : v ≠ SVerdict.ok) :
+    ∃ st ∈ sts, v = SVerdict.invalidStepper st.dest ∧ findArr arrs st.dest = none := by
+  induction sts with
+  | nil => simp only [checkStepperNames] at h; exact absurd h.symm hv
+  | cons s rest ih =>
+    simp only [checkStepperNames] at h
+    split at h
+    · rename_i hs
+      refine ⟨s, List.mem_cons_self, h.symm, ?_⟩
+      simpa using hs
+    · obtain ⟨st, hst, h1, h2⟩ := ih h
+      exact ⟨st, List.mem_cons_of_mem _ hst, h1, h2⟩
+
+/-- **stepper_check_complete.**  If `SPHCompiler(...)` generates the integrator
+code without raising, every stepper keyword is a particle array and every
+`d_*`/`s_*` argument of every stepper method that is wrapped
+(`initialize`, `stage1`, …) is a property or constant of that array. -/
+theorem stepper_check_complete (arrs : List PArr) (sts : List Stepper)
+    (h : checkSteppers arrs sts = SVerdict.ok) :
+    ∀ st ∈ sts, ∃ pa, findArr arrs st.dest = some pa ∧
+      ∀ m, (m ∈ st.methods.map (·.1) ∨ m ∈ wrapperNames sts) →
+        ∀ x ∈ st.args m, (isSrcArr x || isDstArr x) = true → strip x ∈ pa.props := by
+  intro st hst
+  unfold checkSteppers at h
+  cases hn : checkStepperNames arrs sts with
+  | invalidStepper n => rw [hn] at h; cases h
+  | missing a b c => rw [hn] at h; cases h
+  | ok =>
+    rw [hn] at h
+    simp only at h
+    obtain ⟨pa, hpa⟩ := checkStepperNames_ok arrs sts hn st hst
+    refine ⟨pa, hpa, ?_⟩
+    intro m hm x hx hxa
+    have hmw : m ∈ wrapperNames sts := by
+      rcases hm with hm | hm
+      · exact (mem_wrapperNames sts m).mpr ⟨st, hst, Or.inr hm⟩
+      · exact hm
+    have h1 := (firstSError_ok _ _).mp h m hmw
+    have h2 := (firstSError_ok _ _).mp h1 st hst
+    simp only [checkStepperMethod, hpa] at h2
+    split at h2
+    · rename_i hsub
+      apply (subset_iff _ _).mp hsub
+      simp only [stepperProps, List.mem_map, List.mem_filter]
+      exact ⟨x, ⟨hx, hxa⟩, rfl⟩
+    · cases h2
+
+/-- the generated integrator takes only pointers that exist -/
+theorem stepper_reads_exist (arrs : List PArr) (sts : List Stepper)
+    (h : checkSteppers arrs sts = SVerdict.ok) :
+    ∀ ap ∈ stepperAccesses sts, ∃ pa, findArr arrs ap.1 = some pa ∧ ap.2 ∈ pa.props := by
+  rintro ⟨a, p⟩ hap
+  simp only [stepperAccesses, List.mem_flatMap, List.mem_map, Prod.mk.injEq] at hap
+  obtain ⟨st, hst, m, hm, q, hq, rfl, rfl⟩ := hap
+  obtain ⟨pa, hpa, hall⟩ := stepper_check_complete arrs sts h st hst
+  refine ⟨pa, hpa, ?_⟩
+  simp only [stepperProps, List.mem_map, List.mem_filter] at hq
+  obtain ⟨x, ⟨hx, hxa⟩, rfl⟩ := hq
+  exact hall m (Or.inr hm) x hx hxa
+
+/-- **stepper_error_names.**  A stepper error names a keyword that is not a
+particle array, or the class of a stepper, the array it is applied to and a
+non-empty list of exactly the names one of its methods needs and that array
+lacks. -/
+theorem stepper_error_names (arrs : List PArr) (sts : List Stepper) (v : SVerdict)
+    (h : checkSteppers arrs sts = v) :
+    match v with
+    | SVerdict.ok => True
+    | SVerdict.invalidStepper n => ∃ st ∈ sts, st.dest = n ∧ findArr arrs n = none
+    | SVerdict.missing c d ns =>
+        ∃ st ∈ sts, st.cls = c ∧ st.dest = d ∧ ∃ pa, findArr arrs d = some pa ∧
+          ∃ m ∈ wrapperNames sts, ns ≠ [] ∧
+            ∀ x, x ∈ ns ↔ x ∈ stepperProps (st.args m) ∧ x ∉ pa.props := by
+  cases v with
+  | ok => trivial
+  | invalidStepper n =>
+    simp only
+    unfold checkSteppers at h
+    cases hn : checkStepperNames arrs sts with
+    | ok =>
+      rw [hn] at h
+      simp only at h
+      obtain ⟨m, _, h1⟩ := firstSError_err _ _ _ h (by simp)
+      obtain ⟨st, hst, h2⟩ := firstSError_err _ _ _ h1 (by simp)
+      simp only [checkStepperMethod] at h2
+      split at h2
+      · rename_i hf
+        simp only [SVerdict.invalidStepper.injEq] at h2
+        exact ⟨st, hst, h2, by rw [← h2]; exact hf⟩
+      · split at h2 <;> cases h2
+    | invalidStepper n' =>
+      rw [hn] at h
+      simp only [SVerdict.invalidStepper.injEq] at h
+      obtain ⟨st, hst, h1, h2⟩ := checkStepperNames_err arrs sts _ hn (by simp)
+      simp only [SVerdict.invalidStepper.injEq] at h1
+      subst h
+      exact ⟨st, hst, h1.symm, by rw [h1]; exact h2⟩
+    | missing a b c =>
+      obtain ⟨st, _, h1, _⟩ := checkStepperNames_err arrs sts _ hn (by simp)
+      cases h1
+  | missing c d ns =>
+    simp only
+    unfold checkSteppers at h
+    cases hn : checkStepperNames arrs sts with
+    | ok =>
+      rw [hn] at h
+      simp only at h
+      obtain ⟨m, hm, h1⟩ := firstSError_err _ _ _ h (by simp)
+      obtain ⟨st, hst, h2⟩ := firstSError_err _ _ _ h1 (by simp)
+      simp only [checkStepperMethod] at h2
+      split at h2
+      · cases h2
+      · rename_i pa hf
+        split at h2
+        · cases h2
+        · rename_i hsub
+          simp only [SVerdict.missing.injEq] at h2
+          obtain ⟨rfl, rfl, rfl⟩ := h2
+          have hmem : ∀ x, x ∈ sortNames (((stepperProps (st.args m)).filter
+              (fun x => !pa.props.contains x)).eraseDups) ↔
+              x ∈ stepperProps (st.args m) ∧ x ∉ pa.props := by
+            intro x
+            rw [mem_sortNames]
+            simp
+          refine ⟨st, hst, rfl, rfl, pa, hf, m, hm, ?_, hmem⟩
+          have : ∃ x, x ∈ stepperProps (st.args m) ∧ x ∉ pa.props := by
+            apply Classical.byContradiction
+            intro hne
+            apply hsub
+            apply (subset_iff _ _).mpr
+            intro x hx
+            apply Classical.byContradiction
+            intro hxp
+            exact hne ⟨x, hx, hxp⟩
+          obtain ⟨x, hx, hxp⟩ := this
+          intro hnil
+          have := (hmem x).mpr ⟨hx, hxp⟩
+          rw [hnil] at this
+          cases this
+    | invalidStepper n' => rw [hn] at h; cases h
+    | missing a b c' =>
+      obtain ⟨st, _, h1, _⟩ := checkStepperNames_err arrs sts _ hn (by simp)
+      cases h1
+
+/-! ## the whole build -/
+
+/-- **no_incomplete_problem_reaches_execution.**  If `AccelerationEval(...)`
+followed by `SPHCompiler(...)` code generation raises nothing, then every
+equation and every stepper is complete and every array pointer taken by the
+generated evaluator and integrator exists. -/
+theorem no_incomplete_problem_reaches_execution (t : Table) (arrs : List PArr)
+    (gs : List GroupT) (sts : List Stepper) (h : buildAll t arrs gs sts = Outcome.ok) :
+    (∀ e ∈ allEquations gs, Complete t arrs e) ∧
+    (∀ ap ∈ programAccesses t gs, ∃ arr, findArr arrs ap.1 = some arr ∧ ap.2 ∈ arr.props) ∧
+    (∀ ap ∈ stepperAccesses sts, ∃ pa, findArr arrs ap.1 = some pa ∧ ap.2 ∈ pa.props) := by
+  unfold buildAll at h
+  cases hc : checkProgram t arrs gs with
+  | ok =>
+    rw [hc] at h
+    simp only at h
+    cases hs : checkSteppers arrs sts with
+    | ok =>
+      exact ⟨check_complete t arrs gs hc, generated_reads_exist t arrs gs hc,
+        stepper_reads_exist arrs sts hs⟩
+    | invalidStepper n => rw [hs] at h; cases h
+    | missing a b c => rw [hs] at h; cases h
+  | invalidDest a b => rw [hc] at h; cases h
+  | invalidSource a b => rw [hc] at h; cases h
+  | missing a b => rw [hc] at h; cases h
+
+/-! ## the checker before the repair (pinned tree, finding F10) -/
+
+/-- What the pinned checker did establish: the explicit needs only. -/
+theorem orig_check_complete_partial (arrs : List PArr) (gs : List GroupT)
+    (h : checkProgramOrig arrs gs = Verdict.ok) :
+    ∀ e ∈ allEquations gs, ∃ d, findArr arrs e.dest = some d ∧
+      (∀ n ∈ e.allArgs, isDstArr n = true → strip n ∈ d.props) ∧
+      ∀ s ∈ e.sources.getD [], ∃ a, findArr arrs s = some a ∧
+        ∀ n ∈ e.allArgs, isSrcArr n = true → strip n ∈ a.props := by
+  intro e he
+  have h1 := (firstError_ok _ _).mp h e he
+  obtain ⟨d, hd, hdn, hsn⟩ := checkEquationWith_ok h1
+  refine ⟨d, hd, ?_, ?_⟩
+  · intro n hn hnd
+    exact hdn n (by simp [explicitNeeds, hn, hnd])
+  · intro s hs
+    obtain ⟨a, ha, han⟩ := hsn s hs
+    exact ⟨a, ha, fun n hn hns => han n (by simp [explicitNeeds, hn, hns])⟩
+
+def vijTable : Table := [("VIJ", ["VIJ", "d_idx", "d_u", "d_v", "d_w", "s_idx", "s_u", "s_v", "s_w"])]
+def vijEqn : Eqn :=
+  { name := "UsesVIJ", dest := "f", sources := some ["f"], mInit := none, mInitPair := none
+    mLoop := some ["self", "d_idx", "d_au", "VIJ"], mLoopAll := none, mPostLoop := none }
+def vijArrs : List PArr := [{ name := "f", props := ["tag", "pid", "gid", "au", "v", "w"] }]
+
+/-- **F10 (counterexample).**  The checker of the pinned tree accepted an
+equation using `VIJ` on an array without `u`, although the generated code takes
+the pointer `dst.u.data`. -/
+theorem orig_check_incomplete :
+    checkProgramOrig vijArrs [GroupT.flat [vijEqn]] = Verdict.ok ∧
+    ("f", "u") ∈ programAccesses vijTable [GroupT.flat [vijEqn]] ∧
+    ∀ arr, findArr vijArrs "f" = some arr → "u" ∉ arr.props := by
+  refine ⟨by decide +kernel, by decide +kernel, ?_⟩
+  intro arr h
+  have : findArr vijArrs "f" = some { name := "f", props := ["tag", "pid", "gid", "au", "v", "w"] } := by
+    decide +kernel
+  rw [this] at h
+  cases h
+  decide +kernel
+
+/-- the repaired checker rejects it, naming the equation, the array and `u` -/
+theorem repaired_check_rejects_F10 :
+    checkProgram vijTable vijArrs [GroupT.flat [vijEqn]] =
+      Verdict.missing "UsesVIJ" [("f", ["u"]), ("f", ["u"])] := by
+  decide +kernel
+
+/-- The repair only adds rejections: whatever the repaired checker accepts the
+pinned one accepted too. -/
+theorem repair_is_conservative (t : Table) (arrs : List PArr) (gs : List GroupT)
+    (h : checkProgram t arrs gs = Verdict.ok) : checkProgramOrig arrs gs = Verdict.ok := by
+  apply (firstError_ok _ _).mpr
+  intro e he
+  have h1 := (firstError_ok _ _).mp h e he
+  -- every explicit need is a need of the repaired checker
+  have hd : ∀ x ∈ (explicitNeeds e).2.map strip, x ∈ (groupNeeds t e).2.map strip := by
+    intro x hx
+    obtain ⟨n, hn, rfl⟩ := List.mem_map.mp hx
+    simp only [explicitNeeds, List.mem_filter] at hn
+    exact List.mem_map.mpr ⟨n, (mem_groupNeeds_dst t e n).mpr ⟨hn.2, Or.inl hn.1⟩, rfl⟩
+  have hs : ∀ x ∈ (explicitNeeds e).1.map strip, x ∈ (groupNeeds t e).1.map strip := by
+    intro x hx
+    obtain ⟨n, hn, rfl⟩ := List.mem_map.mp hx
+    simp only [explicitNeeds, List.mem_filter] at hn
+    exact List.mem_map.mpr ⟨n, (mem_groupNeeds_src t e n).mpr ⟨hn.2, Or.inl hn.1⟩, rfl⟩
+  have hmono : ∀ (a : PArr) (n1 n2 : List Name), (∀ x ∈ n1, x ∈ n2) →
+      checkArray a n2 = none → checkArray a n1 = none := by
+    intro a n1 n2 h12 hc
+    unfold checkArray at hc ⊢
+    split at hc
+    · rename_i hss
+      simp only [strictSubset, Bool.and_eq_true, Bool.not_eq_true'] at hss
+      have h1' : subset n1 a.props = true :=
+        (subset_iff _ _).mpr (fun x hx => (subset_iff _ _).mp hss.1 x (h12 x hx))
+      have h2' : subset a.props n1 = false := by
+        cases hb : subset a.props n1 with
+        | false => rfl
+        | true =>
+          have : subset a.props n2 = true :=
+            (subset_iff _ _).mpr (fun x hx => h12 x ((subset_iff _ _).mp hb x hx))
+          rw [this] at hss
+          exact absurd hss.2 (by simp)
+      simp [strictSubset, h1', h2']
+    · cases hc
+  unfold checkEquationOrig
+  unfold checkEquation checkEquationWith at h1
+  unfold checkEquationWith
+  cases hfd : findArr arrs e.dest with
+  | none => rw [hfd] at h1; cases h1
+  | some d =>
+    rw [hfd] at h1
+    simp only at h1 ⊢
+    cases hsrc : e.sources with
+    | none =>
+      rw [hsrc] at h1
+      simp only at h1 ⊢
+      cases hc : checkArray d ((groupNeeds t e).2.map strip) with
+      | none => rw [hmono d _ _ hd hc]
+      | some err => rw [hc] at h1; cases h1
+    | some srcs =>
+      rw [hsrc] at h1
+      simp only at h1 ⊢
+      cases hf : srcs.find? (fun s => (findArr arrs s).isNone) with
+      | some s => rw [hf] at h1; cases h1
+      | none =>
+        rw [hf] at h1
+        simp only at h1 ⊢
+        split at h1
+        · rename_i hemp
+          simp only [List.isEmpty_iff, List.append_eq_nil_iff, List.filterMap_eq_nil_iff] at hemp
+          obtain ⟨e1, e2⟩ := hemp
+          have hc : checkArray d ((groupNeeds t e).2.map strip) = none := by
+            cases hcc : checkArray d ((groupNeeds t e).2.map strip) with
+            | none => rfl
+            | some x => rw [hcc] at e1; simp at e1
+          have hnil : (checkArray d ((explicitNeeds e).2.map strip)).toList ++
+              srcs.filterMap (checkSrc arrs ((explicitNeeds e).1.map strip)) = [] := by
+            rw [hmono d _ _ hd hc]
+            simp only [Option.toList_none, List.nil_append, List.filterMap_eq_nil_iff]
+            intro s hsm
+            have := e2 s hsm
+            unfold checkSrc at this ⊢
+            cases hfa : findArr arrs s with
+            | none => rfl
+            | some a =>
+              rw [hfa] at this
+              exact hmono a _ _ hs this
+          simp [hnil]
+        · cases h1
+
+/-! ## non-vacuity: concrete problems meeting the hypotheses -/
+
+def wijTable : Table :=
+  [("HIJ", ["HIJ", "d_h", "d_idx", "s_h", "s_idx"]),
+   ("XIJ", ["XIJ", "d_idx", "d_x", "d_y", "d_z", "s_idx", "s_x", "s_y", "s_z"]),
+   ("R2IJ", ["R2IJ", "XIJ"]), ("RIJ", ["R2IJ", "RIJ", "sqrt"]),
+   ("WIJ", ["HIJ", "KERNEL", "RIJ", "WIJ", "XIJ"])]
+def sdEqn : Eqn :=
+  { name := "SummationDensity", dest := "fluid", sources := some ["fluid", "solid"]
+    mInit := some ["self", "d_idx", "d_rho"], mInitPair := none
+    mLoop := some ["self", "d_idx", "d_rho", "s_idx", "s_m", "WIJ"], mLoopAll := none
+    mPostLoop := none }
+def sdArrs : List PArr :=
+  [{ name := "fluid", props := ["tag", "pid", "gid", "x", "y", "z", "h", "m", "rho"] },
+   { name := "solid", props := ["tag", "pid", "gid", "x", "y", "z", "h", "m"] }]
+
+/-- a complete two-array problem inside a sub-group is accepted, the closure of
+`WIJ` is all five symbols, and the generated code reads `h` of the solid -/
+example :
+    checkProgram wijTable sdArrs [GroupT.sub [[sdEqn], []]] = Verdict.ok ∧
+    closure wijTable sdEqn.loopArgs = ["WIJ", "HIJ", "RIJ", "XIJ", "R2IJ"] ∧
+    ("solid", "h") ∈ programAccesses wijTable [GroupT.sub [[sdEqn], []]] := by
+  refine ⟨by decide +kernel, by decide +kernel, by decide +kernel⟩
+
+/-- removing the implicitly needed `h` from the second source is rejected -/
+example :
+    checkProgram wijTable
+      [{ name := "fluid", props := ["tag", "pid", "gid", "x", "y", "z", "h", "m", "rho"] },
+       { name := "solid", props := ["tag", "pid", "gid", "x", "y", "z", "m"] }]
+      [GroupT.sub [[sdEqn], []]] =
+    Verdict.missing "SummationDensity" [("solid", ["h"])] := by
+  decide +kernel
+
+/-- a stepper whose `stage1` needs `x0` on an array without it -/
+example :
+    checkSteppers sdArrs
+      [{ dest := "fluid", cls := "RK2Step",
+         methods := [("initialize", ["self", "d_idx", "d_x"]),
+                     ("stage1", ["self", "d_idx", "d_x", "d_x0", "dt"])],
+         pyStages := [] }] =
+    SVerdict.missing "RK2Step" "fluid" ["x0"] := by
+  decide +kernel
 
 end PysphVerif.C20
